@@ -1,10 +1,10 @@
 """C13 - assembly output is a pure function of its inputs.
 
 Explicit-state search over assemble-call histories in ONE process (K2): every history of depth <= 2
-(thorough 3) over 20 actions (stl programs at w=64/32, a no-stl program at w=16, werror on, a parse
+(thorough 3) over 22 actions (stl programs at w=64/32, a no-stl program at w=16, werror on, a parse
 failure inside nested namespaces, a lexing error, an unknown macro after the stl cache was filled, a
 macro-recursion overflow with max_recursion_depth=5, runs with max_recursion_depth=2000 and 4000, programs behind a 1- or 2-file stl prefix with one to three user files, a
-rep-heavy program, the stl under other short names, other user short names, another directory) is run
+rep-heavy program, a program that raises a syntax warning (with and without warnings-as-errors, one fixed path), the stl under other short names, other user short names, another directory) is run
 in a forked child of a parent that has imported flipjump but never assembled; then every probe is
 assembled and its .fjm and .fjd bytes are compared with the bytes produced by a FRESH interpreter
 process. The real process globals (parse-cache keys, namespace stack, error flags, recursion limit)
@@ -32,6 +32,7 @@ CONSTS = 'LEN = 5\nVAL = LEN * 3\nstl.startup\nstl.output_char \'a\' + LEN\nstl.
 CONSTS_FAIL = 'LEN = 7\nstl.startup\nno_such_macro LEN\nstl.loop\n'
 DEEP_OK = 'stl.startup\n;x' + '+1' * 400 + '\nx:\nstl.loop\n'      # well inside the default python recursion budget of an assemble
 DEEP_FAIL = 'stl.startup\n;x' + '+1' * 700 + '\nx:\nstl.loop\n'    # well outside it: fails in a fresh process, must fail the same way after any history
+WARN = 'def m x, unused_p {\n  ;x\n}\nm 0, 0\n'   # raises a syntax warning (an unused macro parameter): refused only when warnings are errors
 PREFIXED = 'pa:\n  ;pb\npb:\n  pa;pa\n'
 USES_NAMES = 'stl.startup\n;LEN\nLEN:\n;VAL\nVAL:\nstl.loop\n'
 
@@ -54,6 +55,8 @@ ACTIONS = [
     ('defines-constants32', CONSTS, dict(w=32, use_stl=True)),
     ('defines-constants-then-fails', CONSTS_FAIL, dict(w=64, use_stl=True)),
     ('depth-4000', NOSTL, dict(w=16, use_stl=False, max_recursion_depth=4000)),
+    ('warning-program', WARN, dict(w=64, use_stl=False, filename='warn.fj')),
+    ('warning-program-werror', WARN, dict(w=64, use_stl=False, werror=True, filename='warn.fj')),
     ('stl-prefix-1-one-user-file', NOSTL, dict(w=64, use_stl=True, stl_prefix=1)),
     ('stl-prefix-1-three-user-files', PREFIXED, dict(w=64, use_stl=True, stl_prefix=1, extra_files=2)),
     ('stl-prefix-2-two-user-files', PREFIXED, dict(w=64, use_stl=True, stl_prefix=2, extra_files=1)),
@@ -65,6 +68,8 @@ PROBES = [
     ('p-rep64-werror-v1', REPHEAVY, dict(w=64, use_stl=True, version=1, werror=True)),
     ('p-names64-v1', USES_NAMES, dict(w=64, use_stl=True, version=1)),
     ('p-names32-v3', USES_NAMES, dict(w=32, use_stl=True, version=3)),
+    ('p-warning-werror', WARN, dict(w=64, use_stl=False, werror=True, version=1, filename='warn.fj')),
+    ('p-warning', WARN, dict(w=64, use_stl=False, version=1, filename='warn.fj')),
     ('p-stl-prefix-1', NOSTL, dict(w=64, use_stl=True, version=1, stl_prefix=1)),
     ('p-stl-prefix-2', PREFIXED, dict(w=64, use_stl=True, version=3, stl_prefix=2)),
     ('p-deep-expr-400', DEEP_OK, dict(w=64, use_stl=True, version=1)),
@@ -73,7 +78,7 @@ PROBES = [
 
 
 def do_assemble(text, wd, tag, w=64, use_stl=True, version=1, werror=False, max_recursion_depth=None, names=None, stl_names=None, subdir=None,
-                stl_prefix=None, extra_files=0):
+                stl_prefix=None, extra_files=0, filename=None):
     """assemble through the public assembler entry; -> (fjm bytes or None, fjd bytes or None, error class name)"""
     from flipjump.assembler import assembler
     from flipjump.fjm.fjm_consts import FJMVersion
@@ -82,7 +87,7 @@ def do_assemble(text, wd, tag, w=64, use_stl=True, version=1, werror=False, max_
     from fjv.asm import quiet
     d = wd / (subdir or 'here')
     d.mkdir(exist_ok=True)
-    src = d / f'{tag}.fj'
+    src = d / (filename or f'{tag}.fj')   # a fixed file name: the same path assembled again by a later call of the history
     src.write_text(text)
     out, dbg = d / f'{tag}.fjm', d / f'{tag}.fjd'
     for p in (out, dbg):
